@@ -552,6 +552,8 @@ def main(modname, argv=None):
         else:
             print('replay not supported for', a.prop)
             rc = 2
+        import shutil
+        shutil.rmtree(chk.workdir, ignore_errors=True)
         sys.exit(rc)
     try:
         mod.run(chk)
